@@ -282,7 +282,7 @@ C11_ChunkGiven(a, ev, b) ==
   ev.e = "wbegin" /\ a.params.ck = "exact" => ev.c = a.params.csv
 C11_AlignedBlockOneThread(a, ev, b) ==
   ev.e = "call" /\ ev.a > 0 /\ a.runno = 1 /\ a.params.ck = "exact" /\ a.params.csv > 0
-     /\ ev.s = FirstStage(a.p) /\ ev.s # KeyStage /\ Adv(a.p) = 0 =>
+     /\ ev.s = FirstStage(a.p) /\ ev.s # KeyStage /\ Adv(a.p) = 0 /\ ~("elems" \in DOMAIN a.p) =>
      b.owner[ev.k \div a.params.csv] = ev.a
 \* a burst of next() calls of one worker on a by-value iterator: c elements, fewer only at the end
 BurstOK(a) == a.nxn = 0 \/ a.nxend \/ a.nxc = 0
